@@ -45,6 +45,7 @@ pub struct MSpan {
     pub finish_t: Option<(T, T)>,
     /// begin time of cancel() calls on this span
     pub cancel_t: Vec<(T, T)>,
+    pub cancel_vt: Vec<usize>,
     pub br: Bracket,
     /// span id as reported by SpanContext::from_span right after creation (fallback only)
     pub api_id: Option<u64>,
@@ -53,6 +54,8 @@ pub struct MSpan {
     /// the span was moved into an adapter
     pub in_adapter: Option<usize>,
     pub pre_reporter: bool,
+    /// collect id of the unit this root started (from the hook log; sched engine only)
+    pub cid: Option<usize>,
 }
 
 #[derive(Clone, Debug)]
